@@ -275,7 +275,7 @@ fn cmd_check(args: &[String]) -> i32 {
     }
     // evidence
     let evidence = build_evidence(&prop, tier, seed, wall, &lane_out, &known_seen, new_viol.len());
-    let dir = format!("{}/evidence", batch::VERIF_ROOT);
+    let dir = std::env::var("VERIF_EVIDENCE_DIR").unwrap_or_else(|_| format!("{}/evidence", batch::VERIF_ROOT));
     let _ = std::fs::create_dir_all(&dir);
     let path = format!("{dir}/{prop}.json");
     if let Err(e) = std::fs::write(&path, serde_json::to_string_pretty(&evidence).unwrap()) {
